@@ -52,7 +52,7 @@ func opcodeAfterOperands(op string) string {
 	n := 0
 	for ip < len(bc) {
 		o := code.Opcode(bc[ip])
-		if o != code.OpLookup {
+		if o != code.OpLookup && o != code.OpConstant {
 			return code.String(o)
 		}
 		n++
